@@ -58,6 +58,12 @@ def cases(rng, tier):
     remote = [n for n in names if not n.startswith("sandvine")]
     for n in rng.sample(remote, 4):
         yield {"name": n, "unpack": False, "doc": n, "envseq": True}
+    # the data home spelled with a trailing slash, a doubled slash, `.` and `..` components
+    for n in rng.sample(remote, 6):
+        yield {"name": n, "unpack": rng.random() < 0.5, "doc": n,
+               "home_spelling": rng.choice(["slash", "dslash", "dot", "dotdot", "slashes"])}
+    for n in rng.sample([v for v in names if v.startswith("sandvine")], 2):
+        yield {"name": n, "unpack": False, "doc": n, "home_spelling": "slash"}
     # after the module that holds the loader machinery was reloaded (autoreload in a notebook), bundled and remote
     for n in rng.sample(names, 6):
         yield {"name": n, "unpack": False, "doc": n, "after_reload": True}
@@ -103,7 +109,7 @@ def run_impl(c):
         return by_url[url]["checksum"] if url in by_url else "0" * 64
     old = (base.urlretrieve, base._sha256, os.environ.get("TRAFFIC_WEAVER_DATA"))
     base.urlretrieve, base._sha256 = fake_retrieve, fake_sha
-    os.environ["TRAFFIC_WEAVER_DATA"] = home
+    os.environ["TRAFFIC_WEAVER_DATA"] = spelled(home, c.get("home_spelling"))
     first_home = None
     if c.get("envseq"):
         # use the data home once under another directory, then switch the variable
@@ -115,7 +121,7 @@ def run_impl(c):
             load_dataset("mix-it-milan_daily")
         except Exception:  # noqa
             pass
-        os.environ["TRAFFIC_WEAVER_DATA"] = home
+        os.environ["TRAFFIC_WEAVER_DATA"] = spelled(home, c.get("home_spelling"))
         seen["urls"].clear()
     try:
         try:
@@ -143,6 +149,13 @@ def run_impl(c):
         shutil.rmtree(home, ignore_errors=True)
         if first_home:
             shutil.rmtree(first_home, ignore_errors=True)
+
+
+def spelled(home, how):
+    """the same directory, written the way people write paths in environment variables"""
+    d, b = os.path.split(home)
+    return {None: home, "slash": home + "/", "dslash": d + "//" + b, "dot": d + "/./" + b,
+            "dotdot": home + "/../" + b, "slashes": home + "//"}[how]
 
 
 def record_for(c, io):
